@@ -605,6 +605,16 @@ class Body:
                          "imbl::HashMap", "imbl::OrdMap", "imbl::HashSet", "imbl::OrdSet", "imbl::Vector"):
                 if at.startswith("&" + coll + "<"):
                     return ("call", coll + "::iter", (args[0],))
+        if tp in ("std::iter::Iterator::next", "std::iter::DoubleEndedIterator::next_back") and len(args) == 1 and strip(args[0])[0] == "var":
+            # `let mut it = xs.iter(); while let Some(x) = it.next()`: the explicit iterator variable is only ever advanced; what it ranges over
+            # is what it was initialised with (the hidden iterator of a `for` loop is treated the same way)
+            nm = strip(args[0])[1]
+            ls = [l_ for l_, n_ in self.local_name.items() if n_ == nm]
+            self.defs()
+            if len(ls) == 1 and len(self._defs.get(ls[0], [])) == 1 and not (1 <= ls[0] <= self.arg_count):
+                init = self.rec_def(self._defs[ls[0]][0], depth + 1)
+                if not contains(init, lambda x: x[0] in ("rec", "unknown")):
+                    args = (init,)
         if path.endswith("Option::unwrap_or_default") and len(args) == 1:
             # numeric default: `.unwrap_or_default()` ≡ `.unwrap_or(0)` (also for the integer newtypes, whose wrapper is not rendered)
             dt = self._place_type(t.get("dest"))
@@ -652,7 +662,11 @@ class Body:
             ops = tuple(self.rec_operand(o, bb, idx, depth + 1) for o in rv["ops"])
             ak = rv["ak"]
             if ak == "adt":
-                return ("agg", norm_name(rv["path"]), rv["variant"], tuple(zip(rv["fields"], ops)))
+                nm_ = norm_name(rv["path"])
+                if nm_ == "melstructs::CoinID" and list(rv["fields"]) == ["txhash", "index"]:
+                    # `CoinID { txhash, index }` is what `CoinID::new(txhash, index)` builds (melstructs): one spelling
+                    return ("call", "melstructs::CoinID::new", ops)
+                return ("agg", nm_, rv["variant"], tuple(zip(rv["fields"], ops)))
             if ak == "closure":
                 return ("closure", norm_name(rv["path"]), tuple(zip(rv["fields"], ops)))
             if ak == "tuple":
